@@ -12,13 +12,16 @@ package main
 //
 //	correspondence  coq/model/Codec.v decode / alloc_decode on the same bytes: accepted or
 //	                rejected like Catalog.ReadCatalogFromReader; requested bytes equal to
-//	                the accounting of the Go mirror walker below (which also defines the
-//	                known-finding region: requested > 3*len+64, i.e. a length prefix that
-//	                is trusted before the data is there, D18)
-//	oracle          outside that region: the loader returns a result or an error (a
-//	                recovered panic is an error), is not killed, does not time out, and
-//	                allocates at most 64*len + 8 MiB; inside the region a few witnesses are
-//	                replayed and reported as known finding / violation
+//	                the accounting of the Go mirror walker below (fixed buffers, min(announced,
+//	                remaining) per byte block, 16 per appended string - the repaired reader of
+//	                engine commit 2f18ef4)
+//	oracle          on every input: the loader returns a result or an error (a recovered
+//	                panic is an error), is not killed, does not time out, and allocates at
+//	                most allocPerByte*len + allocBase bytes (TotalAlloc delta)
+//	regression      a fixed corpus of hostile length prefixes / counts (formerly known finding
+//	                D18: 2^40, 2^33, MaxInt64, MaxInt64+1, 2^64-1 as string length, element
+//	                count, value-block length, embedded constant length) runs first on every
+//	                check and must pass the same oracle
 //
 // This part is fuzzing (bounded testing); the theorems are in coq/props/C20.v.
 
@@ -84,7 +87,14 @@ func (w *walker) str() string {
 	if !w.ok {
 		return ""
 	}
-	w.add(n)
+	// readBytesFromReader: n > MaxInt64 is refused before reading; otherwise the buffer holds what arrives
+	if n < 1<<63 {
+		if rem := uint64(len(w.b) - w.pos); n < rem {
+			w.add(n)
+		} else {
+			w.add(rem)
+		}
+	}
 	return string(w.raw(n))
 }
 func (w *walker) boolean() {
@@ -98,13 +108,11 @@ func (w *walker) strs() {
 	if !w.ok {
 		return
 	}
-	if n > allocCap/16 {
-		w.add(allocCap)
-	} else {
-		w.add(16 * n)
-	}
 	for i := uint64(0); i < n && w.ok; i++ {
 		w.str()
+		if w.ok {
+			w.add(16) // append of one string header
+		}
 	}
 }
 
@@ -160,11 +168,6 @@ func walkStream(b []byte) (ok bool, alloc uint64) {
 		}
 	}
 	return w.ok, w.alloc
-}
-
-func inRegionD18(b []byte) bool {
-	_, a := walkStream(b)
-	return a > 3*uint64(len(b))+64
 }
 
 // ---- base streams ----
@@ -482,6 +485,11 @@ func runSandboxed(dir string, inputs [][]byte, memLimitKB int) ([]c20Out, error)
 		}
 		if cur >= 0 && !got[cur] {
 			msg := stderr.String()
+			if i := strings.Index(msg, "runtime: "); i >= 0 {
+				msg = msg[i:]
+			} else if i := strings.Index(msg, "fatal error"); i >= 0 {
+				msg = msg[i:]
+			}
 			if i := strings.Index(msg, "\n\n"); i > 0 {
 				msg = msg[:i]
 			}
@@ -506,7 +514,7 @@ func runSandboxed(dir string, inputs [][]byte, memLimitKB int) ([]c20Out, error)
 type c20Case struct {
 	Hex      string `json:"hex"`
 	Mutation string `json:"mutation"`
-	Region   bool   `json:"in_region_d18"`
+	Fixed    bool   `json:"regression_corpus,omitempty"`
 	Out      c20Out `json:"out"`
 }
 
@@ -536,11 +544,16 @@ func c20Oracle(b []byte, o c20Out) string {
 	default:
 		return "no outcome recorded"
 	}
-	if bound := 64*uint64(len(b)) + 8<<20; o.Alloc > bound {
+	if bound := allocPerByte*uint64(len(b)) + allocBase; o.Alloc > bound {
 		return fmt.Sprintf("LoadKnowledgeBaseFromReader allocated %d bytes for a stream of %d bytes", o.Alloc, len(b))
 	}
 	return ""
 }
+
+// TotalAlloc allowed for a load: the repaired reader takes a fresh 512-byte buffer for every
+// string it reads (bytes.Buffer.ReadFrom) and a string needs at least 8 bytes of stream, plus
+// the nodes and maps built per meta
+const allocPerByte, allocBase = 256, 1 << 20
 
 func btoi(b bool) int {
 	if b {
@@ -556,6 +569,103 @@ func hostileStream(n uint64) []byte {
 	binary.LittleEndian.PutUint64(x, n)
 	h.Write(x)
 	return h.Bytes()
+}
+
+// fixed regression corpus (formerly known finding D18, repaired by engine commit 2f18ef4): hostile
+// length prefixes and counts at every place where the reader used to size an allocation by them
+func hostileCorpus() (ins [][]byte, names []string) {
+	sizes := []uint64{1 << 40, 1 << 33, 1<<63 - 1, 1 << 63, 1<<64 - 1, 1 << 24}
+	u64 := func(b *bytes.Buffer, n uint64) {
+		x := make([]byte, 8)
+		binary.LittleEndian.PutUint64(x, n)
+		b.Write(x)
+	}
+	str := func(b *bytes.Buffer, s string) { ast.WriteStringToWriter(b, s) }
+	header := func() *bytes.Buffer {
+		b := &bytes.Buffer{}
+		str(b, ast.Version)
+		str(b, "KB")
+		str(b, "1")
+		return b
+	}
+	for _, n := range sizes {
+		// the length of the knowledge-base name
+		ins, names = append(ins, hostileStream(n)), append(names, fmt.Sprintf("string length %d", n))
+		// the number of metas
+		b := header()
+		u64(b, n)
+		ins, names = append(ins, b.Bytes()), append(names, fmt.Sprintf("meta count %d", n))
+		// the element count of an ArgumentList
+		b = header()
+		u64(b, 1)
+		str(b, "a")
+		u64(b, uint64(ast.TypeArgumentList))
+		str(b, "a")
+		str(b, "x")
+		str(b, "AL()")
+		u64(b, n)
+		str(b, "e1")
+		ins, names = append(ins, b.Bytes()), append(names, fmt.Sprintf("ArgumentList count %d", n))
+		// the length of the value block of a constant
+		b = header()
+		u64(b, 1)
+		str(b, "c")
+		u64(b, uint64(ast.TypeConstant))
+		str(b, "c")
+		str(b, "1")
+		str(b, "C(int64->1)")
+		u64(b, uint64(ast.TypeInteger))
+		u64(b, n)
+		b.Write([]byte{1, 0, 0})
+		ins, names = append(ins, b.Bytes()), append(names, fmt.Sprintf("ValueBytes length %d", n))
+		// the list length inside the expression index
+		b = header()
+		u64(b, 0)
+		str(b, "KB")
+		str(b, "1")
+		u64(b, 0)
+		u64(b, 0)
+		u64(b, 0)
+		u64(b, 1)
+		str(b, "v1")
+		u64(b, n)
+		str(b, "e1")
+		ins, names = append(ins, b.Bytes()), append(names, fmt.Sprintf("expression index list count %d", n))
+		b = header()
+		u64(b, 0)
+		str(b, "KB")
+		str(b, "1")
+		u64(b, 0)
+		u64(b, 0)
+		u64(b, 0)
+		u64(b, 0)
+		u64(b, 1)
+		str(b, "v1")
+		u64(b, n)
+		str(b, "a1")
+		ins, names = append(ins, b.Bytes()), append(names, fmt.Sprintf("atom index list count %d", n))
+		// the element count of a ThenExpressionList
+		b = header()
+		u64(b, 1)
+		str(b, "l")
+		u64(b, uint64(ast.TypeThenExpressionList))
+		str(b, "l")
+		str(b, "x")
+		str(b, "TEL()")
+		u64(b, n)
+		ins, names = append(ins, b.Bytes()), append(names, fmt.Sprintf("ThenExpressionList count %d", n))
+		// a complete, decodable catalog whose string constant announces n bytes inside its value block
+		cat := &ast.Catalog{KnowledgeBaseName: "KB", KnowledgeBaseVersion: "1", MemoryName: "KB", MemoryVersion: "1"}
+		vb := make([]byte, 8)
+		binary.LittleEndian.PutUint64(vb, n)
+		cat.Data = map[string]ast.Meta{"c": &ast.ConstantMeta{NodeMeta: ast.NodeMeta{AstID: "c", GrlText: "\"ab\"", Snapshot: "C(string->2\"ab\")"},
+			ValueType: ast.TypeString, ValueBytes: append(vb, 'a', 'b')}}
+		var cb bytes.Buffer
+		if cat.WriteCatalogToWriter(&cb) == nil {
+			ins, names = append(ins, cb.Bytes()), append(names, fmt.Sprintf("embedded constant length %d", n))
+		}
+	}
+	return
 }
 
 func runC20Bin(seed uint64, tier string, out string) error {
@@ -585,20 +695,17 @@ func runC20Bin(seed uint64, tier string, out string) error {
 	var inputs [][]byte
 	var muts []string
 	add := func(b []byte, m string) { inputs = append(inputs, b); muts = append(muts, m) }
+	// the regression corpus runs first
+	hin, hnames := hostileCorpus()
+	for i, b := range hin {
+		add(b, "regression corpus: "+hnames[i])
+	}
+	nFixed := len(inputs)
 	add([]byte{}, "empty")
 	for _, b := range bases {
 		add(b, "valid")
 	}
-	inRegion := 0
-	for tries := 0; len(inputs)-inRegion < nIn && tries < 40*nIn; tries++ {
-		if n := len(inputs); n > 0 && inRegionD18(inputs[n-1]) {
-			if inRegion >= 60 {
-				inputs, muts = inputs[:n-1], muts[:n-1] // enough inputs of the known-finding region
-				rep.count("generated inside the known-finding region D18 and dropped")
-			} else {
-				inRegion++
-			}
-		}
+	for len(inputs) < nIn+nFixed {
 		switch r := p.intn(10); {
 		case r == 0:
 			b := make([]byte, p.intn(200))
@@ -625,18 +732,10 @@ func runC20Bin(seed uint64, tier string, out string) error {
 			add(b, "synthetic: "+m)
 		}
 	}
-	// region split
 	var runIdx []int
-	var runInputs [][]byte
-	region := make([]bool, len(inputs))
-	for i, b := range inputs {
-		region[i] = inRegionD18(b)
-		if region[i] {
-			rep.count("inside known-finding region D18 (not loaded)")
-			continue
-		}
+	runInputs := inputs
+	for i := range inputs {
 		runIdx = append(runIdx, i)
-		runInputs = append(runInputs, b)
 	}
 	outs, err := runSandboxed(out, runInputs, 4<<20)
 	if err != nil {
@@ -646,14 +745,23 @@ func runC20Bin(seed uint64, tier string, out string) error {
 	index := []interface{}{}
 	distinct := map[string]bool{}
 	coqBytes := 0
+	var maxAlloc, maxRatio uint64
 	for j, i := range runIdx {
 		b, o := inputs[i], outs[j]
 		rep.Evaluations++
 		rep.count("class " + o.Class)
 		rep.count("input " + strings.SplitN(muts[i], ":", 2)[0])
-		rec := c20Case{Hex: hex.EncodeToString(b), Mutation: muts[i], Out: o}
+		rec := c20Case{Hex: hex.EncodeToString(b), Mutation: muts[i], Out: o, Fixed: i < nFixed}
 		if msg := c20Oracle(b, o); msg != "" {
 			rep.fail("C20 (binary stream, "+muts[i]+"): "+msg, rec)
+		}
+		if o.Alloc > maxAlloc {
+			maxAlloc = o.Alloc
+		}
+		if len(b) >= 64 {
+			if r := o.Alloc / uint64(len(b)); r > maxRatio {
+				maxRatio = r
+			}
 		}
 		wok, walloc := walkStream(b)
 		if wok != o.ReadOK && (o.Class == "ok" || o.Class == "error") {
@@ -672,34 +780,12 @@ func runC20Bin(seed uint64, tier string, out string) error {
 			cases = append(cases, fmt.Sprintf("(%d, %s, %s, %d%%N)", id, hexPieces(b), gBool(o.ReadOK), walloc))
 		}
 	}
-	// inputs inside the region are still given to the model (acceptance is irrelevant there: expected false, they cannot load)
-	for i, b := range inputs {
-		if region[i] && len(cases) < nCoq+60 && len(b) <= 3000 {
-			_, walloc := walkStream(b)
-			id := len(index)
-			index = append(index, c20Case{Hex: hex.EncodeToString(b), Mutation: muts[i], Region: true})
-			cases = append(cases, fmt.Sprintf("(%d, %s, false, %d%%N)", id, hexPieces(b), walloc))
-		}
-	}
-	// known finding D18: the 19-byte witness and a relative, each in its own sandbox; reported with a
-	// key (./check prints KNOWN-FINDING if the key is listed open in known_findings.json, else VIOLATION)
-	wit := [][]byte{hostileStream(1 << 40), hostileStream(1 << 33)}
-	wouts, err := runSandboxed(out, wit, 2<<20)
-	if err != nil {
-		return err
-	}
-	for j, o := range wouts {
-		msg := c20Oracle(wit[j], o)
-		if msg == "" {
-			continue
-		}
-		desc := fmt.Sprintf("stream %s (%d bytes: version string, then a length prefix of %d with no data): %s", hex.EncodeToString(wit[j]), len(wit[j]), binary.LittleEndian.Uint64(wit[j][11:]), msg)
-		rep.failKey("D18-length-prefix-trusted", "C20 (binary stream): "+desc, c20Case{Hex: hex.EncodeToString(wit[j]), Mutation: "hostile length prefix", Region: true, Out: o})
-		break
-	}
+	rep.Extra["largest TotalAlloc of a load (bytes)"] = maxAlloc
+	rep.Extra["largest TotalAlloc / stream length (streams >= 64 bytes)"] = maxRatio
+	rep.Extra["regression corpus inputs"] = nFixed
 	rep.Cases = len(cases)
 	rep.DistinctNontrivial = len(distinct)
-	rep.Rule = "arbitrary bytes presented as binary knowledge-base stream: random bytes, version string + random bytes, and mutants (bit flips, byte edits, boundary numbers written into length / count / tag / int fields, truncation, splicing, duplication, deletion; one or two mutations) of the streams of 3 built knowledge bases and 40 synthetic catalogs; each load in a child process under ulimit -v 4 GiB with a 5 s timeout; non-trivial = loads successfully or longer than 40 bytes, distinct by content; inputs whose length prefixes exceed the stream (region D18) are not loaded, except the listed witnesses"
+	rep.Rule = "arbitrary bytes presented as binary knowledge-base stream: random bytes, version string + random bytes, and mutants (bit flips, byte edits, boundary numbers written into length / count / tag / int fields, truncation, splicing, duplication, deletion; one or two mutations) of the streams of 3 built knowledge bases and 40 synthetic catalogs; each load in a child process under ulimit -v 4 GiB with a 5 s timeout; non-trivial = loads successfully or longer than 40 bytes, distinct by content; a fixed corpus of hostile length prefixes and counts (the former known finding D18) runs first"
 	if err := writeShardsBySize(out, "From Grule Require Import Base CodecPrim Codec CorrCodec.", "c20_mismatches", "c20_case", cases, 16); err != nil {
 		return err
 	}
